@@ -16,7 +16,7 @@ RULE = ("trees of conventional test classes (*Test.java, *Tests.java, anything u
         "exactly one call) in random order, @Test / @Ignore alone or together in either order, helper and plain methods; "
         "flat and Maven layouts; non-trivial = at least one expected finding; distinct = distinct input"
         '; a default-package test class walked after the packaged ones in a quarter of the trees'
-        '; every other tree is observed through `coca tbs -p DIR` (coca_reporter/tbs.json)')
+        '; every other tree is observed through `coca tbs -p DIR` (coca_reporter/tbs.json); two trees in five are analysed from inside the project (root `.`)')
 TRUSTED_BASE = C01.TRUSTED_BASE
 ASSUMPTIONS = ["a method-level finding is identified by the line of the method's NAME (the statement does not fix it; the full pass records that line since 00fa4f2)", "helpers contain only assertion or plain calls; an assertion is a call whose lower-cased name starts with one of "
                "assert/should/check/maynotbe/is/spec/verify (the documented list)"]
